@@ -151,6 +151,14 @@ func scenarios(prop, tier string) []*Scenario {
 			&Scenario{Name: "genesis/configured-invalid", Cfg: hdr.Config{MaxBranchDepth: 144, Invalid: []string{"G/a/a"}}, N: pick(4, 5), Marks: 1, M: 1,
 				Maint: []hdr.Op{opReload}, Slots: []string{"a", "H"}},
 		)
+		// marking on branches whose lower part has been pruned away (Clean / Load with a small depth):
+		// the trim index is relative to the retained part
+		r = append(r,
+			&Scenario{Name: "genesis/mark-after-prune-depth-3", Cfg: hdr.Config{MaxBranchDepth: 2}, N: pick(4, 5), Marks: 1, M: 1, Grows: 1, GrowBy: 4,
+				Maint: []hdr.Op{{K: "cleand", D: 3}, {K: "reloadd", D: 3}}, Slots: []string{"a", "H"}},
+			&Scenario{Name: "genesis/mark-after-prune-depth-2", Cfg: hdr.Config{MaxBranchDepth: 1}, N: pick(4, 5), Marks: 1, M: 1, Grows: 1, GrowBy: 3,
+				Maint: []hdr.Op{{K: "cleand", D: 2}, {K: "reloadd", D: 2}}, Slots: []string{"a", "H"}},
+		)
 		for _, s := range r {
 			s.oracles = []oracle{oracleC17, oracleC08verdict}
 		}
